@@ -21,6 +21,12 @@ json <ct> <id> <nameBad> <namehex> <type> <qc> <cd> <do> <sde> <outcome…>
   → <status> <k> {| status rd cd nq {namehex qtype} nans} d<disposals>          (ct = 0)
   → <status> <k> {| id opcode rcode rd cd nq {namehex qtype qclass} nans ede} d<disposals>   (ct = 1)
 quic <orig:0/1> <poolhex|-> <streamhex|->        → none | <payloadhex>
+doh <zoneAware> <pathhex> <METHOD> <zoned> <ndns> {bad|<hex|->} ; <wirehex> <unpacked> … q <nq> {…}
+  one HTTP request on the wire-format side (wirehex: the body; unpacked…: Unpack of the octets the front end hands on)
+  → <status> <k> {| resp}
+jsonreq <zoneAware> <pathhex> <zoned> <id> <nameBad> <namehex> <type> <qc> <cd> <do> <sde> <outcome…>  → <status> <k> {| jsonview}
+dce2e <dcudp|dctcp> <wirehex> <unpacked> … q <nq> {…}     a decrypted DNSCrypt message, library filter included
+  → <status> <k> {| resp}
 quicread <poolhex|-> {; <datahex|-> <nil|eof|other>}     the results of the successive stream.Read calls
   → none | <payloadhex>                          (readQUICMsg with the real buffer size on that script)
 ```
@@ -216,6 +222,42 @@ def step (s : Unit) : List String → Unit × String
       | _ => none
     if reads.length != groups.length then (s, "bad-op") else
     (s, match quicRead quicBufSize (hexBytes pool) reads with | none => "none" | some p => toHex p)
+  | "doh" :: za :: path :: meth :: zoned :: ndns :: rest =>
+    -- doh <zoneAware> <pathhex> <GET|POST|…> <zoned> <ndns> {bad|<hex|->} ; <frame: the octets that reach Unpack>
+    let n := nat! ndns
+    let dnsToks := rest.take n
+    match (splitSemi (rest.drop n)).drop 1 with
+    | [g] =>
+      match parseFrame g with
+      | none => (s, "bad-op")
+      | some f =>
+        let parts := (String.ofList ((hexBytes path).map fun b => Char.ofNat b)).splitOn "/"
+        let m : Method := if meth == "GET" then .get else if meth == "POST" then .post else .other
+        let dns := dnsToks.map fun t => if t == "bad" then none else some (hexBytes t)
+        let r : DohReq := { parts := parts, meth := m, dns := dns, body := f.bytes,
+                            raddr := { v6 := bool! zoned, zone := if bool! zoned then some "eth0" else none } }
+        let sees := serveDoHReq (bool! za) r (fun _ => f.um) f.o
+        (s, s!"{sees.status} {sees.msgs.length} " ++ " ".intercalate (sees.msgs.map showResp))
+    | _ => (s, "bad-op")
+  | "jsonreq" :: za :: path :: zoned :: id :: nameBad :: name :: qt :: qc :: cd :: d :: sde :: rest =>
+    let j : JSONReq := { name := name, nameEmpty := bool! nameBad, qtype := numParam qt, qclass := numParam qc,
+                         cd := boolParam cd, do_ := boolParam d, sde := boolParam sde }
+    let m0 := (jsonToMsg j (nat! id)).getD
+      { id := 0, qr := false, opcode := 0, rd := false, cd := false, questions := [], nAn := 0, nNs := 0,
+        edns := false, keepalive := false }
+    match parseOutcome m0 rest with
+    | none => (s, "bad-op")
+    | some (o, _) =>
+      let parts := (String.ofList ((hexBytes path).map fun b => Char.ofNat b)).splitOn "/"
+      let a : RAddr := { v6 := bool! zoned, zone := if bool! zoned then some "eth0" else none }
+      let r := serveJSONReq (bool! za) parts a j (nat! id) o
+      (s, s!"{r.1} {r.2.length} " ++ " ".intercalate (r.2.map showJV))
+  | "dce2e" :: t :: rest =>
+    match parseTransport t, parseFrame rest with
+    | some tr, some f =>
+      let sees := serveDNSCryptE2E tr f.um f.o
+      (s, s!"{sees.status} {sees.msgs.length} " ++ " ".intercalate (sees.msgs.map showResp))
+    | _, _ => (s, "bad-op")
   | _ => (s, "bad-op")
 
 def main : IO Unit := loop step ()
